@@ -51,6 +51,7 @@ pub fn run(cx: &mut Ctx) {
     crate::rules::float_rules::float_renderer(cx, "C19.G1");
     crate::rules::float_rules::float_sign_rule(cx, "C19.S1", "format/src/cformat.rs", "CFormatSpec", "format_float");
     bytes_padding(cx, &src);
+    keyed_specifiers(cx, &src);
 }
 
 fn peek_dominance(cx: &mut Ctx, src: &sm::Src) {
@@ -372,5 +373,46 @@ fn bytes_padding(cx: &mut Ctx, src: &sm::Src) {
         cx.ok(rule, &format!("the precision-cut slice `{}` is measured for the padding and written in all three places", cut[0]));
     } else {
         cx.fail(rule, &format!("{}/format_bytes", rule), &src.loc(f), &format!("format_bytes: cut to the precision: {:?}; measured for the padding: {:?}; written: {:?} — these must be one local", cut, measured, written));
+    }
+}
+
+
+/// K1: a specifier is keyed iff it has a mapping key, the empty key included.
+fn keyed_specifiers(cx: &mut Ctx, src: &sm::Src) {
+    use crate::eval::{Machine, V};
+    let rule = "C19.K1";
+    cx.rule(rule, "`%(key)s` specifiers: CFormatPart::has_key, interpreted on a literal part and on specifier parts without a mapping key, with the empty key `%()s` and with a non-empty key, is true exactly for the specifiers that carry a key (the empty one included: `'%()s' % {'': 1}` is keyed in Python); check_specifiers takes its keyed/positional decision from has_key of every specifier part");
+    cx.floor(rule, 4);
+    let Some(f) = src.method("CFormatPart", "has_key") else { return cx.anchor_missing(rule, "CFormatPart::has_key") };
+    let none = |_: &V, _: &str, _: &[V]| -> Option<V> { None };
+    let spec = |key: Option<&str>| -> V {
+        let mut rec = std::collections::BTreeMap::new();
+        rec.insert("mapping_key".to_string(), V::Opt(key.map(|k| Box::new(V::Str(k.to_string())))));
+        V::Ctor("CFormatPart::Spec".into(), vec![V::Rec(rec)])
+    };
+    let cases: Vec<(&str, V, bool)> = vec![
+        ("a literal part", V::Ctor("CFormatPart::Literal".into(), vec![V::Str("x".into())]), false),
+        ("`%s`", spec(None), false),
+        ("`%()s`", spec(Some("")), true),
+        ("`%(name)s`", spec(Some("name")), true),
+    ];
+    let mut bad = vec![];
+    for (name, v, want) in cases {
+        let mut mach = Machine::new(&none);
+        mach.set("self", v);
+        match mach.eval_fn_body(&f.block) {
+            Ok(V::Bool(b)) if b == want => cx.ok(rule, &format!("has_key({}) = {}", name, want)),
+            Ok(o) => bad.push(format!("has_key({}) = {:?}, expected {}", name, o, want)),
+            Err(e) => bad.push(format!("has_key({}) not interpretable ({})", name, e)),
+        }
+    }
+    if !bad.is_empty() {
+        cx.fail(rule, &format!("{}/has_key", rule), &src.loc(f), &bad.join("; "));
+    }
+    let t = sm::tsx(&src.file);
+    if t.contains("ifpart.is_specifier(){lethas_key=part.has_key();") {
+        cx.ok(rule, "check_specifiers asks has_key() of every specifier part");
+    } else {
+        cx.fail(rule, &format!("{}/check_specifiers", rule), &src.rel, "check_specifiers does not take the keyed/positional decision from has_key() of each specifier part");
     }
 }
